@@ -93,6 +93,21 @@ def m_from_digit(ex, st, callee, args, dest_ty, frame, depth):
     num = ex.as_prim(args[0]).e
     radix = ex.as_prim(args[1]).e
     out = []
+
+    def urem_bound(e):
+        """d if e is (an extract / zero-extension of) `_ urem d` with constant d: then e < d without asking the solver"""
+        e = z3.simplify(e)
+        while e.decl().kind() in (z3.Z3_OP_EXTRACT, z3.Z3_OP_ZERO_EXT):
+            e = e.arg(0)
+        if e.decl().kind() in (z3.Z3_OP_BUREM, z3.Z3_OP_BUREM_I) and z3.is_bv_value(e.arg(1)):
+            return e.arg(1).as_long()
+        return None
+    rb = urem_bound(num)
+    rs = z3.simplify(radix)
+    if rb is not None and z3.is_bv_value(rs) and 2 <= rb <= rs.as_long() <= 36:
+        ch = Prim("char", num)
+        st.trace.append({"kind": "digit", "value": num})
+        return [(st, Outcome("ret", ex.mk_enum(dest_ty, "Some", [ch])))]
     bad_radix = z3.UGT(radix, z3.BitVecVal(36, 32))
     if ex.feasible(st, bad_radix):
         s2 = st.fork()
